@@ -283,7 +283,9 @@ fn oracle(case: &[u8], obs: &mut Obs) -> Result<(), String> {
             1 => c.below(data.len() as u64 + 1),
             _ => 0,
         };
-        let rs = open_stream_as(e, verif_model::io::Reader::new(data.clone()).at_position(pos0));
+        // (and may deliver short reads and ErrorKind::Interrupted, which read_exact-style loops must ride out)
+        let (chunks, intr) = crate::stream::gen_reader_behaviour(&mut c, 1);
+        let rs = open_stream_as(e, verif_model::io::Reader::with(data.clone(), chunks.clone(), intr, vec![]).at_position(pos0));
         // the same file behind a stream that cannot seek relative to its end (it may refuse it, but must not open it
         // with tables other than the declared ones)
         let ek = (data.len() % 8) as u8;
